@@ -227,6 +227,9 @@ def loader_family(tier, seed):
         "r_dfo": [("a", "R", "K", "a"), ("b", "DFO", "K", "b")],
         "r_o": [("a", "R", "K", "a"), ("b", "O", "K", "b")],
         "r_o_w": [("a", "R", "K", "a"), ("b", "O", "W", "b_param")],
+        # the optional key comes FIRST in the crown (a TypedDict lists its keys alphabetically, a keyword-only default may be
+        # declared first): no required sibling has tested the datum before it is probed
+        "o_r": [("a", "O", "W", "a"), ("b", "R", "W", "b")],
         "r_dv_r": [("a", "R", "K", "a"), ("b", "DV", "K", "b"), ("c", "R", "W", "c")],
         "p_k_dv_w": [("a", "R", "P", "a"), ("b", "R", "K", "b"), ("c", "DV", "K", "c"), ("d", "DVO", "W", "d")],
         "renamed": [("a", "R", "K", "a_param"), ("b", "DV", "W", "b_param")],
@@ -286,7 +289,7 @@ def loader_family(tier, seed):
             if quick:
                 # keep the quick family small but covering: every crown kind; policies and modes on a subset
                 if sname not in ("r2", "r_dv", "r_dvn", "r_o", "p_k_dv_w", "r_dvo", "r_dfo", "renamed", "r_dv_dv", "dv_only", "r_dfi",
-                                 "r_dve", "r_o_dv", "r_dvm"):
+                                 "r_dve", "r_o_dv", "r_dvm", "o_r"):
                     continue
                 if sname == "dv_only":
                     if cname != "skip_opt":
